@@ -102,8 +102,12 @@ def run(tier, chk):
         s["id"] = f"rand-{i+1}"
     scns += rnd
     common.run_sim(chk, wd, scns, "C17_Trace", shards=12, sig_of=sig, runner="quinn")
+    # the last clause as seen THROUGH h3: timeout / application close met by build(), by the driver and by a request, both roles
+    cls = common.gen_scenarios(chk, wd, "C17H_Gen", workers=2, label="hgen", cfg_text="SPECIFICATION Spec\nINVARIANT Emit\nCHECK_DEADLOCK FALSE\n")
+    common.run_sim(chk, wd, cls, "C17H_Trace", label="h3cls", shards=4, runner="quinn",
+                   sig_of=lambda s, t, w: f"c17:h3-error-class:{s['cond']['k']}:{s['when']}")
     chk.exhaustive = False
-    chk.distinct_nontrivial = len(scns)
+    chk.distinct_nontrivial = len(scns) + len(cls)
     fams = {}
     for s in scns:
         fams[s.get("fam", "?")] = fams.get(s.get("fam", "?"), 0) + 1
@@ -111,7 +115,8 @@ def run(tier, chk):
     chk.rule = ("real Quinn loopback connections; adapter as client and as server; bidirectional (split and unsplit) and unidirectional streams; peer stream windows {64, 1024, default} "
                 "(random: 64..65536, connection window 200); frames with payloads from TLC's length set and random 0..6000 bytes (thorough: up to 256 KiB); overlapping send_data after 0 and 2 polls; "
                 "identifier queries before I/O, between units, after a pending read, after FIN, after reset, after close; peer close / reset / stop with codes {0, 0x100, 0x10c, 2^62-1, random}; idle timeout; "
-                "poll_send; datagrams both ways; the adapter's own close, reset and stop_sending")
+                "poll_send; datagrams both ways; the adapter's own close, reset and stop_sending; through h3 (both roles): idle timeout and application close with 7 codes at varint form "
+                "boundaries arriving while h3 builds the connection (no uni-stream credit) or once established - every h3 result must carry the corresponding class (C17H_Trace)")
     chk.assumptions = ["Quinn (the transport itself) is correct", "loopback UDP delivers within 5 s (a longer wait is reported as a violation 'wait never ended')",
                        "datagram loss on loopback is tolerated (a missing datagram is not a violation)"]
 
